@@ -420,6 +420,149 @@ def a_malformed_ref(form, site):
     return f, {"row": i + 2, "sheet": "survey", "cites": [f"'{k}'"], "model": False}
 
 
+PRIME_COLS = ("label", "hint", "relevant", "constraint_message")
+
+
+def s_malformed_ref_primed(form):
+    rows = [i for i, r in enumerate(form["survey"]) if is_question(r) and "name" in r and has_label(r)
+            and rtype(r) in ("text", "integer", "decimal", "date", "string", "int", "note")]
+    return [(i, c, m, w) for i in rows for c in PRIME_COLS for m in MALFORMED[:3]
+            for w in ("same-row-name", "earlier-row-name", "earlier-row-type")]
+
+
+def _label_key(row, col):
+    if col in ("label", "hint"):
+        keys = [k for k in row if k == col or k.startswith(col + "::")]
+        return keys[0] if keys else col
+    return col
+
+
+def a_malformed_ref_primed(form, site):
+    """cross-column priming: the very same malformed text stands first in a column the reference check skips (survey
+    `name` / `type`) and then in a checked column — the checked cell is rejected all the same"""
+    i, c, m, where = site
+    f = clone(form)
+    row = f["survey"][i]
+    key = _label_key(row, c)
+    if c == "constraint_message":
+        row.setdefault("constraint", ". != ''")
+    shift = 0
+    if where == "same-row-name":
+        # key order of the row decides the order of the cells: name before the checked cell
+        newrow = {}
+        for k2, v2 in row.items():
+            if k2 == key:
+                continue
+            newrow[k2] = m if k2 == "name" else v2
+        newrow[key] = m
+        f["survey"][i] = newrow
+    else:
+        row[key] = m
+        first = {"type": "text", "name": m, "label": "P"} if where == "earlier-row-name" else {"type": m, "name": fresh(form, "prm"), "label": "P"}
+        f["survey"].insert(0, first)
+        shift = 1
+    return f, {"row": i + 2 + shift, "sheet": "survey", "cites": [f"'{key}'"], "model": False}
+
+
+def s_malformed_ref_choice_primed(form):
+    ls = lists_of(form)
+    return [(idx[k], m, w) for ln, idx in ls.items() for k in range(len(idx)) for m in MALFORMED[:3]
+            for w in ("earlier-choice-name", "same-row-name", "earlier-list-name")]
+
+
+def a_malformed_ref_choice_primed(form, site):
+    """the same on the choices sheet: `name` / `list_name` are skipped by the reference check, labels are not"""
+    j, m, where = site
+    f = clone(form)
+    ch = f["choices"]
+    key = next((k for k in ch[j] if k == "label" or k.startswith("label::")), "label")
+    shift = 0
+    if where == "same-row-name":
+        new = {}
+        for k2, v2 in ch[j].items():
+            if k2 == key:
+                continue
+            new[k2] = m if k2 == "name" else v2
+        new[key] = m
+        ch[j] = new
+    elif where == "earlier-choice-name":
+        ch[j][key] = m
+        first = {"list_name": ch[j]["list_name"], "name": m}
+        for k2 in [k for k in ch[j] if k == "label" or k.startswith("label::")]:
+            first[k2] = "P"
+        ch.insert(0, first)
+        shift = 1
+    else:
+        ch[j][key] = m
+        first = {"list_name": m, "name": "p1"}
+        for k2 in [k for k in ch[j] if k == "label" or k.startswith("label::")]:
+            first[k2] = "P"
+        ch.insert(0, first)
+        shift = 1
+    return f, {"row": j + 2 + shift, "sheet": "choices", "cites": [f"'{key}'"], "model": False}
+
+
+def s_blank_rows_before(form):
+    return [(i, k, via) for i in s_blank_type(form) for k in (1, 3) for via in ("dict", "md")]
+
+
+def a_blank_rows_before(form, site):
+    """interior blank rows keep their row numbers in every container format (xls/xlsx always did; md/csv since 26e02dc)"""
+    i, k, via = site
+    f = clone(form)
+    del f["survey"][i]["type"]
+    f["survey"][i:i] = [{} for _ in range(k)]
+    return f, {"row": i + 2 + k, "cites": ["type"], "model": False, "via": via}
+
+
+def s_labelled_questions(form):
+    return [i for i, r in enumerate(form["survey"]) if is_question(r) and "name" in r and has_label(r)
+            and rtype(r) in ("text", "integer", "decimal", "date", "string", "int")]
+
+
+def a_body_ref_question(form, i):
+    f = clone(form)
+    f["survey"][i]["body::ref"] = "/data/elsewhere"
+    return f, {"cites": [str(f["survey"][i]["name"]), "ref"], "model": False}
+
+
+def s_body_ref_repeat(form):
+    return [(i, a) for i, r in enumerate(form["survey"]) if rtype(r) == "begin repeat" for a in ("ref", "nodeset")]
+
+
+def a_body_ref_repeat(form, site):
+    i, a = site
+    f = clone(form)
+    f["survey"][i]["body::" + a] = "/data/elsewhere"
+    return f, {"cites": [str(f["survey"][i]["name"]), a], "model": False}
+
+
+def a_action_ref(form, p):
+    n = fresh(form, "act")
+    f = insert_row(form, p, {"type": "background-audio", "name": n, "action::ref": "/data/elsewhere"})
+    return f, {"cites": [n, "ref"], "model": False}
+
+
+def s_flat_clash(form):
+    return [(p, v) for p in positions(form) for v in ("same", "case", "nested")]
+
+
+def a_flat_clash(form, site):
+    """a question inside a group marked `flat` shares the instance level of the group's siblings"""
+    p, v = site
+    n, g = fresh(form, "fq"), fresh(form, "fg")
+    inner = {"type": "text", "name": n.upper() if v == "case" else n, "label": "I"}
+    block = [{"type": "text", "name": n, "label": "O"}, {"type": "begin group", "name": g, "label": "G", "flat": "yes"}]
+    if v == "nested":
+        block += [{"type": "begin group", "name": g + "_in", "label": "G", "flat": "yes"}, inner, {"type": "end group"}]
+    else:
+        block.append(inner)
+    block.append({"type": "end group"})
+    f = clone(form)
+    f["survey"][p:p] = block
+    return f, {"cites": [n], "lower": True, "model": False}
+
+
 def s_malformed_ref_choice(form):
     return [(j, m) for j, ch in enumerate(form.get("choices") or []) for m in MALFORMED[:4]]
 
@@ -1220,6 +1363,13 @@ CATALOGUE = [
     ("ambiguous_mixed", s_ambiguous_mixed, a_ambiguous_mixed),
     ("malformed_ref", s_malformed_ref, a_malformed_ref),
     ("malformed_ref_choice", s_malformed_ref_choice, a_malformed_ref_choice),
+    ("malformed_ref_primed", s_malformed_ref_primed, a_malformed_ref_primed),
+    ("malformed_ref_choice_primed", s_malformed_ref_choice_primed, a_malformed_ref_choice_primed),
+    ("blank_rows_before", s_blank_rows_before, a_blank_rows_before),
+    ("body_ref_question", s_labelled_questions, a_body_ref_question),
+    ("body_ref_repeat", s_body_ref_repeat, a_body_ref_repeat),
+    ("action_ref", positions, a_action_ref),
+    ("flat_clash", s_flat_clash, a_flat_clash),
     ("list_missing", s_list_missing, a_list_missing),
     ("no_choices_sheet", s_no_choices_sheet, a_no_choices_sheet),
     ("choice_no_name", s_choice_rows, a_choice_no_name),
